@@ -1,32 +1,154 @@
-# Per-property configuration of ./check: which correspondence scenarios run, what is assumed.
-# MANIFEST.json is generated from this file by ./gen_manifest.py.
+# Per-property configuration of ./check: which correspondence scenarios run, which monitor
+# signatures belong to the property, what is assumed. MANIFEST.json is generated from this file
+# by ./gen_manifest.py.
 
 COMMON_TRUSTED = [
     "extractor /verif/extract (go/ast; regenerates lean/Pegnet/Generated/Facts.lean and facts.json from /repo on every run)",
-    "correspondence harness /verif/harness (differential run of the real Go code and the Lean model's executable definitions)",
+    "correspondence harness /verif/harness (differential run of the real Go code and the Lean model's executable definitions; spec monitors on the implementation's dumps)",
 ]
+SQLITE = "SQLite: a committed sql.Tx is atomic and durable, a rolled-back or killed one leaves no effect, pool connections read committed state only"
+ORACLES = "grading libraries, LXR hash, fat103/ed25519/secp256k1 signature checks, encoding/json and the Factom binary formats are outside the model (their answers enter as arbitrary oracle values)"
 
 CHECKS = {
+    "C01": {
+        "scenarios": [{"name": "replaymp"}, {"name": "general", "tier": "thorough"}],
+        "accept": ["replay:"],
+        "technique": "Lean: model is a function of the chain; regenerated list of every map range / sort / clock read in the sync path; order-independence lemmas for the payout set; kernel-checked witness that untied staking order mattered (repaired). Tie: N independent OS processes replay one tie-laden chain, dumps compared; reference run in lock-step with the model",
+        "assumptions": [ORACLES, "multiFetch's worker interleaving is not modelled (entries are stored by index)"],
+        "design_ref": "DESIGN.md §7 C01",
+    },
+    "C02": {
+        "scenarios": [{"name": "crash"}],
+        "accept": ["crash:", "replay:"],
+        "technique": "Lean: block all-or-nothing, height bump inside the transaction, a height cannot be applied twice (induction-free invariant over the whole block via the program logic), regenerated fact that no sync-path write uses the pool. Tie: real SIGKILL of a child daemon before every kind of SQL statement / COMMIT / after COMMIT, reopen, compare with the reference ledger, resume",
+        "assumptions": [SQLITE],
+        "design_ref": "DESIGN.md §7 C02",
+    },
+    "C03": {
+        "scenarios": [{"name": "admission"}, {"name": "general", "tier": "thorough"}],
+        "accept": ["batch:", "nonneg:"],
+        "technique": "Lean: balance-table invariant (one row per address, no negative cell) proved for every primitive and lifted through the whole block transaction and every chain; rejected batch = no state change; accepted batch passed the funds check. Tie: applyTransactionBatch (hook) on random 1-4 transaction batches vs the model; lock-step chains",
+        "assumptions": ["per-asset column sums stay below 2^63 (no check in the code; SQLite would switch to REAL)"],
+        "design_ref": "DESIGN.md §7 C03",
+    },
+    "C04": {
+        "scenarios": [{"name": "ledger"}],
+        "accept": ["history-replay:", "nonneg:"],
+        "technique": "Lean: AddToBalance/SubFromBalance change the column sum by exactly their amount; a transfer changes its asset's supply by minus what went to the burn address and nothing else. Tie: era-crossing lock-step chain; monitor recomputes every balance from the recorded history + scheduled adjustments after every block",
+        "assumptions": [ORACLES, "block-level sum of all event kinds is checked by the monitor, proved only per event kind (transfer, rejected batch)"],
+        "design_ref": "DESIGN.md §7 C04",
+    },
+    "C05": {
+        "scenarios": [{"name": "sigmut"}],
+        "accept": ["sigmut:", "liveness:"],
+        "technique": "Lean: invalid entry is inert on arrival and on execution from holding, key type selected strictly above its activation, single input address, int64 bound. Tie: block with one validly signed transfer plus hundreds of mutants (bit flips, missing/duplicated/swapped signature pairs, other key, salt window) per key type and era, lock-step with the model, executions counted",
+        "assumptions": [ORACLES, "signature soundness (a verdict bit implies the key holder signed) is assumed of fat103 / the crypto libraries"],
+        "design_ref": "DESIGN.md §7 C05",
+    },
+    "C06": {
+        "scenarios": [{"name": "dups"}],
+        "accept": ["dups:"],
+        "technique": "Lean: execution marks the entry hash, the mark is permanent over every chain (relation rows only grow: invariant lifted through the whole block), marked or already-recorded entries are skipped, holding window visits strictly earlier heights. Tie: repetition patterns synced with and without the duplicates, lock-step with the model",
+        "assumptions": [ORACLES],
+        "design_ref": "DESIGN.md §7 C06",
+    },
     "C07": {
-        "title": "Conversions execute later, at the next graded block's rates, exactly",
-        "scenarios": [{"name": "convert"}, {"name": "timing"}],
-        "technique": "Lean 4 theorems on convert (floor, min/max rates, value non-increasing, reject cases) + arrival/holding-window lemmas; differential run of conversions.Convert and of chains with graded/ungraded patterns",
-        "assumptions": ["Go big.Int arithmetic and int64 conversion behave as specified (modelled as Int with the IsInt64 bound)"],
+        "scenarios": [{"name": "convert"}, {"name": "ledger"}],
+        "accept": ["convert:", "conversion:"],
+        "technique": "Lean: Convert succeeds iff its guards hold and then returns floor(amt*src/dst) within int64, src=min/dst=max under PIP-10, value non-increasing, all reject cases. Tie: conversions.Convert on edge/random inputs vs the model; chains with graded/ungraded patterns, recorded to_amount vs recorded rates, never executed in the submitting block",
+        "assumptions": ["big.Int arithmetic modelled by Int/Nat"],
         "design_ref": "DESIGN.md §7 C07",
     },
+    "C08": {
+        "scenarios": [{"name": "malformed"}, {"name": "dups"}, {"name": "general", "tier": "thorough"}],
+        "accept": ["liveness:", "dups:"],
+        "technique": "Lean: every model function total (termination checked), staking glue never panics, repeated entry hashes are skipped, an empty block always applies; regenerated swallow/pool-read lists. Tie: blocks with malformed / oversized / truncated / duplicated entries on all three chains on reachable ledgers, real grader libraries, lock-step; each block must apply",
+        "assumptions": [ORACLES, "a panic inside the grading libraries is outside the model (seen by the monitor only)", "SQLite lock escalation between the block transaction and pool reads is not modelled (known finding)"],
+        "design_ref": "DESIGN.md §7 C08",
+    },
+    "C09": {
+        "scenarios": [{"name": "restart"}],
+        "accept": ["restart:"],
+        "technique": "Lean: reload path is a function of the database, cache hit is idempotent, restart keeps the database; kernel-checked witness (1000 vs 1057) that the incremental and reload averages differ after an ungraded block. Tie: one chain synced continuously and with clean restarts at chosen heights, both in lock-step with the model, final ledgers compared",
+        "assumptions": [SQLITE],
+        "design_ref": "DESIGN.md §7 C09",
+    },
+    "C10": {
+        "scenarios": [{"name": "faults"}],
+        "accept": ["faults:"],
+        "technique": "Lean: a propagated failure commits nothing and a retry is deterministic; swallow keeps partial effects; regenerated lists of discarded / log-only / blank-assigned errors equal the known ones. Tie: every upstream request and (sampled) SQL statement of chosen blocks fails once on a copy of the pre-block database; the daemon's own retry must reach the fault-free ledger",
+        "assumptions": [SQLITE, "faults are injected at the database/sql driver and at the HTTP transport"],
+        "design_ref": "DESIGN.md §7 C10",
+    },
+    "C11": {
+        "scenarios": [{"name": "ledger"}],
+        "accept": ["rewards:"],
+        "technique": "Lean: version ladders equal the regenerated ones, no winners = no reward, unparsable address skipped, each winner credited exactly Payout() with one coinbase row, SPR rewards only from 2.0 and only for declared top-100 ids, burn shape iff and exact credit. Tie: lock-step chain; monitor compares coinbase rows with an independent run of the real graders",
+        "assumptions": [ORACLES],
+        "design_ref": "DESIGN.md §7 C11",
+    },
+    "C12": {
+        "scenarios": [{"name": "inband"}, {"name": "ledger"}],
+        "accept": ["inband:", "rates:"],
+        "technique": "Lean: rate rows of other heights untouched by any block (relation lifted through the whole block transaction) hence immutable over every chain; no rates = no conversions; exact binary64 band rule; regenerated tolerances. Tie: band test at and around both edges vs Go floats; lock-step chains with in-band / out-of-band SPR sets in every era",
+        "assumptions": [ORACLES, "a healthy Factom node serves each height once"],
+        "design_ref": "DESIGN.md §7 C12",
+    },
+    "C13": {
+        "scenarios": [{"name": "admission"}],
+        "accept": ["admission:"],
+        "technique": "Lean: outcome of a single-conversion batch equals the rule table for all pairs, heights, rates, averages and balances; corollaries per rule and the converse (admissible and funded = executed); regenerated one-way set, guard and reject codes. Tie: applyTransactionBatch (hook) over pairs x heights around every activation x rate/average patterns vs the model and the table",
+        "assumptions": ["PEG-destination rule from 2.0 lives in the holding path (ValidatePegTx) and is exercised by the lock-step chains"],
+        "design_ref": "DESIGN.md §7 C13",
+    },
+    "C14": {
+        "scenarios": [{"name": "payouts"}, {"name": "ledger"}],
+        "accept": ["staking:", "payouts:"],
+        "technique": "Lean: total paid = min(total stake, cap), exact when over, full when under, proportional shares, distinct payout keys, stake uses min(current, past) and ignores PEG. Tie: ConversionSupplySet vs the model on random sets with ties; lock-step chain over two snapshot heights with the staking specification recomputed from the snapshot tables",
+        "assumptions": ["every per-asset valuation fits in int64 (otherwise the block fails: C08)"],
+        "design_ref": "DESIGN.md §7 C14",
+    },
+    "C15": {
+        "scenarios": [{"name": "ledger"}],
+        "accept": ["issuance:", "history-replay:old-burn", "history-replay:burn", "history-replay:mint"],
+        "technique": "Lean: regenerated developer table sums to 100 % / 2000 PEG (x144), mint table shape, activation order; payouts, mint and zeroings are identity off their heights; kernel-checked witness that the old-burn zeroing stops at the first non-zero asset. Tie: lock-step chain crossing every activation with funds on the special addresses; schedule monitor",
+        "assumptions": [ORACLES],
+        "design_ref": "DESIGN.md §7 C15",
+    },
     "C16": {
-        "title": "PEG conversion bank (legacy era)",
-        "scenarios": [{"name": "payouts"}, {"name": "bank"}],
-        "technique": "Lean 4 theorems on payouts/refund (bank limit, exact when over, full if fits, proportional shares, refund value); differential run of ConversionSupplySet, Refund and bank-era chains",
+        "scenarios": [{"name": "payouts"}, {"name": "ledger"}],
+        "accept": ["payouts:", "refund:", "bank:"],
+        "technique": "Lean: bank limit, exact when over, full if fits, proportional shares, same requesters, refund value inequality. Tie: ConversionSupplySet / Refund vs the model; bank-era lock-step chains with bank rows checked",
         "assumptions": ["request keys are distinct (Go map keys)", "bank is a uint64"],
         "design_ref": "DESIGN.md §7 C16",
     },
+    "C17": {
+        "scenarios": [{"name": "ledger"}],
+        "accept": ["history-replay:"],
+        "technique": "Lean: pages at offsets 0, 50, ... partition any ordered result; arrival records pending; rejected batch has no effect; status update hits exactly the rows of the hash; kernel-checked witness that an unconvertible amount stays pending. Tie: lock-step chain; monitor replays the whole history (+ scheduled adjustments) to the balances after every block",
+        "assumptions": [ORACLES, "API paging is modelled as LIMIT/OFFSET over a fixed ordered list"],
+        "design_ref": "DESIGN.md §7 C17",
+    },
+    "C18": {
+        "scenarios": [{"name": "api", "race": True}],
+        "accept": ["api:", "race:"],
+        "technique": "Lean (call granularity): API calls never change the committed database, see committed state only, but move the shared averaging cache (kernel-checked witness); regenerated lists of API sites touching shared node state and of goroutine starts. Tie/support: real srv handlers over HTTP from 6 goroutines during real sync, ledger compared with the load-free run; binary built with -race, reports parsed",
+        "assumptions": [SQLITE, "goroutine interleavings inside one call cannot be exhibited by the sequential model: the race detector run supports, it does not prove"],
+        "design_ref": "DESIGN.md §7 C18",
+    },
     "C19": {
-        "title": "Version lock",
         "scenarios": [{"name": "hardforks"}],
-        "technique": "Lean 4 iff-characterisation of CheckHardForks over all fork tables / row sets; differential run of the real CheckHardForks on databases produced by real sessions",
+        "accept": ["hardforks:"],
+        "technique": "Lean 4 iff-characterisation of CheckHardForks over all fork tables / row sets, adequate builds always accepted, back-fill rows; regenerated shipped table. Tie: real CheckHardForks on databases produced by real session histories (start-up check each session)",
         "assumptions": ["pn_sync_version has PRIMARY KEY(height) (SQLite enforces it)"],
         "design_ref": "DESIGN.md §7 C19",
+    },
+    "C20": {
+        "scenarios": [{"name": "amount"}, {"name": "codec"}],
+        "accept": ["amount:", "codec:"],
+        "technique": "Lean: amount parser core exact-or-reject (iff), structural validation lemmas. Tie: cmd.FactoidToFactoshi vs the model and exact decimal arithmetic; fat2 decoder on canonical encodings and byte-level mutations vs an independent canonical-form checker, round trip, and the model's validAt",
+        "assumptions": ["byte-level JSON acceptance (duplicate / unknown keys) is outside the Lean model: decided by the differential codec scenario only"],
+        "design_ref": "DESIGN.md §7 C20",
     },
 }
 
